@@ -236,6 +236,15 @@ PROPS["C13"] = dict(
     level_note='Trusted: Coq kernel + vm_compute; the hand-written small-step model of event_bus.go / persistEvent (flat registry; sync.Mutex, RWMutex, WaitGroup, atomic CAS, goroutine creation and recover are modelled as atomic micro-steps); the controller harness (parks goroutines at user-code callbacks, reads goroutine states from runtime.Stack) and the replay of its log on the model (Bus/BusRun.v); the oracle Corr/BusOracle.v; interleavings strictly inside bus code are not forced by the controller.',
     rule='cases = seeded random programs (threads, handler/filter/hook bodies that call back into the bus, options) run on the real bus under the controller with a seeded random schedule; every run is replayed on the Coq model along the controller log and judged by the oracle; directed witness programs run first; C13: persistent buses, each published value mapped to ok/reject/timeout/unencodable with probability 3/8 of a fault; non-trivial = every case; distinct = distinct program+schedule',
 )
+PROPS["C14"] = dict(
+    title='What the SQLite store acknowledged survives reopening and a killed process',
+    theorems="Properties/C14.v",
+    proof_files=["Crash/SqliteCrash.v", "Crash/CrashProofs.v", "Properties/C14.v"],
+    suites=[dict(name="sqlitekill", mod="core", family="sqlitekill", corr="Corr.CorrCrash", check="check14", shard=50)],
+    level_text='Partial. Proved in Coq over every history of process lifetimes (open, appends, offset saves; clean close or kill before/during the open, between operations or during one, whose statement is then lost or committed unacknowledged): the log holds exactly the committed appends in order, so every acknowledged append survives, with at most one unacknowledged event per lifetime; positions are 1,2,3,... without gaps and a new append gets a larger offset than any ever issued; a saved offset is the last SaveOffset that committed; opening is idempotent and a lifetime without operations changes nothing. ASSUMED, not proved: SQLite (WAL, synchronous=NORMAL) keeps a committed statement through the death of the process and makes a statement in flight atomic - that is the part of the property that lives in SQLite and the file system and that no Gallina model can exhibit. Tied to the code by a child process (the harness binary) working on a database file and acknowledging each returned call on a pipe, SIGKILLed by the parent after a chosen number of acknowledgements or at an arbitrary instant (including during the first open / schema migration), or closing cleanly; the parent reopens the file with the real store after every lifetime and compares what it finds with the model (both outcomes of the operation in flight are tried) and with an independent oracle.',
+    level_note='Trusted: Coq kernel + vm_compute; the hand-written model Crash/SqliteCrash.v of store.go/schema.go (one auto-committed statement per Append/SaveOffset, acknowledgement after commit, AUTOINCREMENT positions, idempotent migration); the assumption about SQLite above; the Go harness sqlitekill.go (child protocol, kill timing); OS crashes / power loss are outside the property and outside the harness (SIGKILL only).',
+    rule='cases = seeded sequences of 3-6 (thorough 3-10) process lifetimes on one database file, each with 0-8 operations (3/4 appends, 1/4 offset saves of existing positions; 1 in 6 lifetimes only opens), ended by a clean close (20%), SIGKILL right after the k-th acknowledgement (40%, k uniform incl. 0 = right after the open) or SIGKILL after a delay of 0-6 ms from process start (40%; first lifetime half of the time 0-2.5 ms: during the first open); the database is reopened and read after every lifetime; non-trivial = cases in which a kill hit an operation in flight or the open; distinct = distinct script+timing outcome',
+)
 PROPS["C15"] = dict(
     title='One type name per event type, everywhere',
     theorems="Properties/C15.v",
